@@ -3,15 +3,15 @@
 // harness-file: session.rs
 // harness: c14_unchoked_num_counts_regular_slots_3
 // config: 
-// failed-check: slots in use = regularly unchoked peers @ ../vh/session.rs:128:5 in function session::verif_kani::unchoked_num_spec
-// native-result: /var/tmp/rdest-verif.C14.373/cfg-default/vh/session.rs:128:5: slots in use = regularly unchoked peers
+// failed-check: the number of slots reported as in use is at least the number of regularly unchoked peers @ ../vh/session.rs:130:5 in function session::verif_kani::unchoked_num_spec
+// native-result: /var/tmp/rdest-verif.C14.29606/cfg-default/vh/session.rs:130:5: the number of slots reported as in use is at least the number of regularly unchoked peers
 // rerun: cd /verif && ./check C14 --replay /verif/evidence/replay/C14-c14_unchoked_num_counts_regular_slots_3.rs
 /// Test generated for harness `session::verif_kani::c14_unchoked_num_counts_regular_slots_3` 
 ///
-/// Check for `assertion`: ""slots in use = regularly unchoked peers""
+/// Check for `assertion`: ""the number of slots reported as in use is at least the number of regularly unchoked peers""
 
 #[test]
-fn kani_concrete_playback_c14_unchoked_num_counts_regular_slots_3_3670665720807492647() {
+fn kani_concrete_playback_c14_unchoked_num_counts_regular_slots_3_15182678042849282709() {
     let concrete_vals: Vec<Vec<u8>> = vec![
         // 1
         vec![1],
@@ -19,8 +19,8 @@ fn kani_concrete_playback_c14_unchoked_num_counts_regular_slots_3_36706657208074
         vec![1],
         // 1
         vec![1],
-        // 1
-        vec![1],
+        // 0
+        vec![0],
         // 1
         vec![1],
         // 0
